@@ -70,6 +70,9 @@ def loop_family() -> list[dict]:
                               S("e", ["d", "c"])]))
     fam.append(P("fwdside", [S("a", tasks=[T("a.1", "jump", 1, "d")]), S("b", ["a"]), S("c", ["b"]), S("d", ["c"]),
                              S("y", ["a"])]))
+    # the store order of the stages is NOT a dependency order (Workflow.create accepts any listing)
+    fam.append(P("cyc4rev", [S("d", ["c"], tasks=[T("d.1", "jump", 1, "a")]), S("c", ["b"]), S("b", ["a"]), S("a")]))
+    fam.append(P("cyc4mix", [S("a"), S("c", ["b"]), S("b", ["a"]), S("d", ["c"], tasks=[T("d.1", "jump", 2, "a")]), S("e", ["d"])]))
     return fam
 
 
@@ -80,6 +83,10 @@ def join_family() -> list[dict]:
     fam.append(P("firstofslow", [S("a"), S("b", ["a"], tasks=[T("b.1", "poll", 1)]), S("c", ["a"]),
                                  S("d", ["b", "c"], join="DISCRIMINATOR")]))
     fam.append(P("quorumall", [S("a"), S("b", ["a"]), S("c", ["a"]), S("d", ["b", "c"], join="N_OF_M", thr=2)]))
+    # a quorum join one of whose branches is re-armed by a jump loop after it was counted (the join is outside the loop)
+    fam.append(P("quorumloop", [S("t"), S("a", ["t"]), S("k", ["a"], tasks=[T("k.1", "jump", 1, "t")]),
+                                S("b", tasks=[T("b.1", "suspend")]), S("c", tasks=[T("c.1", "poll", 6)]),
+                                S("j", ["a", "b", "c"], join="N_OF_M", thr=2)]))      # b finishes when it is signalled
     fam.append(P("firstofallfail", [S("a"), S("b", ["a"], tasks=[T("b.1", "terminal")]),
                                     S("c", ["a"], tasks=[T("c.1", "terminal")]),
                                     S("d", ["b", "c"], join="DISCRIMINATOR")]))
@@ -150,12 +157,17 @@ def plan(pid: str, tier: str, seed: int) -> dict:
                                     ("chain2", "diamond", "failbranch", "firstof", "cycle2")]),
         )
     if pid == "C02":
-        progs = core + extra + [PR.by_name(n) for n in SYN] + PR.split_family() + PR.lazy_family()
+        progs = core + extra + [PR.by_name(n) for n in SYN] + PR.split_family() + PR.lazy_family() + PR.halt_family()
         nseed = 24 if quick else 400
         return dict(
             progs=progs, props=["C02_SameOutcome", "C02_StartOnce", "C02_NoReexec", "C02_ExecExact", "C01_SameData"],
             jobs=lambda refs: [{"kind": "schedule", "prog": p, "seeds": s, "opts": {"p_withhold": 0.2}}
-                               for p in progs for s in chunks(range(seed * 1000, seed * 1000 + nseed), 12)],
+                               for p in progs for s in chunks(range(seed * 1000, seed * 1000 + nseed), 12)]
+                              # one message type of one stage overtaken by everything else (a whole branch finishing, down to its
+                              # CompleteWorkflow, before a sibling's StartStage arrives, a CompleteTask before its JumpToStage, ...)
+                              + straggler_jobs(progs, seed, ("StartStage", "CompleteStage", "CompleteWorkflow") if quick else
+                                               ("StartStage", "StartTask", "RunTask", "CompleteTask", "CompleteStage", "JumpToStage",
+                                                "SkipStage", "ContinueParentStage", "CompleteWorkflow")),
             mc=[(n, {"AnyOrder": "TRUE", "MaxWithhold": 1}, {}) for n in ("chain2", "diamond", "selfloop", "failbranch")]
                + [("chain2", {"AnyOrder": "TRUE", "MaxWithhold": 2}, {}), ("orsplit", {"AnyOrder": "TRUE"}, {}),
                   ("ornone", {"AnyOrder": "TRUE", "MaxWithhold": 1}, {})]
@@ -172,7 +184,11 @@ def plan(pid: str, tier: str, seed: int) -> dict:
         return dict(
             progs=progs, props=["C03_StartsOnlyWhenAllowed", "C03_ExecOnlyStarted", "C03_NoRunBelowHalt"],
             jobs=lambda refs: [{"kind": "schedule", "prog": p, "seeds": s, "opts": {"p_withhold": 0.15, "early": 3}}
-                               for p in progs for s in chunks(range(seed * 1000, seed * 1000 + nseed), 12)],
+                               for p in progs for s in chunks(range(seed * 1000, seed * 1000 + nseed), 12)]
+                              # a branch that finishes exactly when told to (it waits for a signal): at every step of the run
+                              + [{"kind": "schedule", "prog": p, "seeds": [seed * 1000 + at],
+                                  "opts": {"p_withhold": 0.0, "fifo_after": 0, "signal_at": at}}
+                                 for p in progs if p["name"] == "quorumloop" for at in range(1, 60)],
             mc=[(p, {"AnyOrder": "TRUE", "MaxEarly": 1}, {}) for p in
                 ("diamond", "firstof", "quorumall", "multimerge", "failbranch", "firstofallfail", "mmfail")]
                + [("orsplit", {"AnyOrder": "FALSE", "MaxEarly": 2}, {})]
@@ -185,7 +201,7 @@ def plan(pid: str, tier: str, seed: int) -> dict:
     if pid == "C05":
         progs = [p for p in core + extra if p["name"] != "stopped"] + [PR.by_name(n) for n in SYN] + \
                 [p for p in join_family() if p["name"] in ("firstofslow", "firstofallfail", "quorumimpossible", "mmfail", "deep")] + \
-                PR.region_family() + PR.split_family()
+                PR.region_family() + PR.split_family() + PR.halt_family()
         nseed = 20 if quick else 300
         return dict(
             progs=progs, props=["C05_QuietMeansDone", "C05_SucceededIsHonest", "C05_FailureReported",
@@ -272,7 +288,7 @@ def plan(pid: str, tier: str, seed: int) -> dict:
                + [(n, {"AnyOrder": "FALSE", "MaxWithhold": 2, "MaxCrashes": 1}, {}) for n in ("chain2", "diamond")],
         )
     if pid == "C10":
-        progs = core + [PR.by_name(n) for n in ("before2", "after1", "lazychain")] + ([] if quick else extra + PR.lazy_family()[2:])
+        progs = core + [PR.by_name(n) for n in ("before2", "after1", "lazychain")] + PR.halt_family() + ([] if quick else extra + PR.lazy_family()[2:])
         return dict(
             progs=progs, props=["C10_SweepHarmless", "C10_NoExtraExec", "C02_StartOnce", "C01_SameOutcome"],
             jobs=lambda refs: [{"kind": "inject", "prog": p, "what": "sweep", "at": at, "times": t}
@@ -343,7 +359,13 @@ def plan(pid: str, tier: str, seed: int) -> dict:
                                for p in progs for at in chunks(range(1, refs[p["name"]]["steps"] + 2), 12)]
                               + [{"kind": "schedule", "prog": p, "seeds": [seed * 1000 + c],
                                   "opts": {"p_withhold": 0.1, "cancel_at": c}}
-                                 for p in progs for c in range(1, refs[p["name"]]["steps"] + 2, 1 if not quick else 2)],
+                                 for p in progs for c in range(1, refs[p["name"]]["steps"] + 2, 1 if not quick else 2)]
+                              # the fanned-out CancelStage of one stage (or the CompleteWorkflow) arrives last: everything that was
+                              # already queued for that stage is handled under the cancel flag first
+                              + straggler_jobs(progs, seed, ("CancelStage", "CompleteWorkflow") if quick else
+                                               ("CancelStage", "CompleteWorkflow", "RunTask", "CompleteTask", "CompleteStage"),
+                                               every=lambda p: [{"cancel_at": c} for c in range(2, refs[p["name"]]["steps"] + 1,
+                                                                                              3 if quick else 1)]),
             mc=[(n, {"AnyOrder": "TRUE", "MaxCancels": 1}, {}) for n in ("chain2", "multitask", "poll")]
                + [(n, {"AnyOrder": "FALSE", "MaxCancels": 1}, {}) for n in ("diamond", "failbranch", "selfloop", "firstof")]
                + [("chain2", {"AnyOrder": "TRUE", "MaxCancels": 1, "MaxWithhold": 1}, {})]
@@ -444,6 +466,24 @@ def dedup_component(rep: Reporter, tier: str, seed: int) -> dict:
     return adapt_component(rep, comp_dedup.run_component(tier, seed))
 
 
+def straggler_jobs(progs, seed, types, extra_opts=None, every=None):
+    """Schedules in which every message of one (type, stage) is a straggler: delivered only when nothing else can move.
+    One job per program x type x top-level stage (+ the workflow-level types), otherwise in order."""
+    jobs = []
+    for p in progs:
+        stages = [s["ref"] for s in p["stages"]]
+        for t in types:
+            for s in ([""] if t in ("CompleteWorkflow", "CancelWorkflow") else stages):
+                opts = {"p_withhold": 0.0, "fifo_after": 0, "hold": [t, s]}
+                opts.update(extra_opts or {})
+                for e in (every(p) if every else [None]):
+                    o = dict(opts)
+                    if e is not None:
+                        o.update(e)
+                    jobs.append({"kind": "schedule", "prog": p, "seeds": [seed * 1000 + len(jobs) % 997], "opts": o})
+    return jobs
+
+
 # ----- runner ----------------------------------------------------------------------------------------
 def run(pid: str, tier: str, seed: int) -> int:
     t0 = time.time()
@@ -455,6 +495,8 @@ def run(pid: str, tier: str, seed: int) -> int:
     # the oracle must be bound: on a race-free program the real in-order run equals the declarative ideal
     oracle_mismatch = []
     for p in ([] if pl.get("allow_ref_mismatch") else progs):
+        if any(t["k"] == "suspend" for s in p["stages"] for t in s["tasks"]):
+            continue        # (its in-order run without a signal is not a finished run: nothing to compare)
         o = refs[p["name"]]["oracle"]
         if o["Ref"]["wf"] != o["Ideal"]["wf"] or any(o["Ref"]["st"].get(s) != o["Ideal"]["st"].get(s)
                                                      for s in o["Ref"]["st"] if s not in o["Racy"]):
